@@ -445,7 +445,8 @@ def __init__(self, env, rec_arrivals=True, absolute_arrivals=True, rec_waits=Tru
     self.packet_times = dd(list)
     self.perhop_times = dd(list)
     self.first_arrival = dd(lambda: 0.0)
-    self.last_arrival = dd(lambda: 0.0)
+    origin = env.now
+    self.last_arrival = dd(lambda: origin)
     self.debug = debug
 ''')
 
